@@ -351,6 +351,8 @@ def check(prog, rep, tier):
     common.report_boundary_splits(prog, rep, 'R14.d', lambda fn: fn.module.name in (
         'yabgp.message.open', 'yabgp.message.notification', 'yabgp.message.keepalive', 'yabgp.message.route_refresh'))
     family_names(prog, rep)
+    common.recombination_shifts(prog, rep, 'R14.b', lambda fn: fn.module.name in (
+        'yabgp.message.open', 'yabgp.message.notification', 'yabgp.message.keepalive', 'yabgp.message.route_refresh'))
     no_return_before_as4(prog, rep)
     # the capability dispatch is total over the codes 0..255 (finite partition)
     cap_dispatch_total(prog, rep, ocls)
